@@ -102,7 +102,7 @@ def _size(case):
     return sum(len(t["data"]) for t in case.get("tabs") or []) + 16 * len(case.get("tabs") or [])
 
 
-def _replay_case(ctx, case, expect_clause=None, count=1):
+def _replay_case(ctx, case, expect_clause=None, count=1, strict=True):
     """Re-record one case alone and let TLC judge it alone; report it if it fails again."""
     binp = ctx.build("c03")
     d = ctx.subdir("replay")
@@ -114,6 +114,9 @@ def _replay_case(ctx, case, expect_clause=None, count=1):
     fails, _ = _tlc_trace(ctx, tp, "replay of one case")
     fails = [f for f in fails if f[2] not in HARNESS_CLAUSES]
     if not fails:
+        if not strict:
+            ctx.log("the case is accepted by ContainerTrace on this tree (nothing to report)")
+            return
         raise vlib.Infra("failure %s of case %s did not reproduce in isolation" % (expect_clause, case.get("id")))
     events = vlib.read_ndjson(tp)
     line, _, clause = fails[0]
@@ -276,4 +279,4 @@ def run(ctx):
 
 
 def replay(ctx, obj):
-    _replay_case(ctx, obj["case"])
+    _replay_case(ctx, obj["case"], strict=False)
